@@ -7,8 +7,8 @@ Local Open Scope Z_scope.
 Theorem C03_resume_bisim_generic :
   forall (Cfg St In Out Saved : Type) (M : machine Cfg St In Out Saved)
          (Ok : Cfg -> Prop) (Inv : Cfg -> St -> Prop) (Eqv : Cfg -> St -> St -> Prop)
-         (OutEq0 OutEq : Out -> Out -> Prop),
-    resumable M Ok Inv Eqv OutEq0 OutEq ->
+         (OutEq0 OutEq : Out -> Out -> Prop) (SavedEq : Saved -> Saved -> Prop),
+    resumable M Ok Inv Eqv OutEq0 OutEq SavedEq ->
     forall c, Ok c -> forall it0 h1 i h2,
     let P := run M c it0 (h1 ++ [i]) in
     let A := go_on M c (fst P) h2 in
@@ -19,6 +19,6 @@ Theorem C03_resume_bisim_generic :
       OutEq0 (snd o0) (snd (hd o0 (snd B))) /\
       outs_eq OutEq (snd A) oB /\
       md_it (fst (fst A)) = md_it (fst (fst B)) /\
-      m_save M c (snd (fst A)) = m_save M c (snd (fst B)).
+      SavedEq (m_save M c (snd (fst A))) (m_save M c (snd (fst B))).
 Proof. exact (@resume_vs_go_on). Qed.
 Print Assumptions C03_resume_bisim_generic.
